@@ -2032,6 +2032,34 @@ func (fr *Frame) resolveLocalAt(name string, st *State) (SV, bool) {
 			best = d
 		}
 	}
+	// a phi named after the variable in a block that dominates the current one
+	// is a later definition than any DebugRef in a block dominating the phi's
+	var bestPhi *ssa.Phi
+	if fr.curBlock != nil {
+		for _, b := range fr.fn.Blocks {
+			if b != fr.curBlock && !b.Dominates(fr.curBlock) {
+				continue
+			}
+			for _, in := range b.Instrs {
+				phi, ok := in.(*ssa.Phi)
+				if !ok {
+					break
+				}
+				if phi.Comment != name {
+					continue
+				}
+				if _, ok := fr.vals[phi]; !ok {
+					continue
+				}
+				if bestPhi == nil || bestPhi.Block().Dominates(b) {
+					bestPhi = phi
+				}
+			}
+		}
+	}
+	if bestPhi != nil && (best == nil || (best.block != bestPhi.Block() && best.block.Dominates(bestPhi.Block()))) {
+		return svValue(fr.vals[bestPhi]), true
+	}
 	if best != nil {
 		return svValue(fr.val(best.instr.X)), true
 	}
